@@ -375,7 +375,7 @@ func c17Truncation(c *Ctx, p *Program) {
 			c.Check(good, "P2-truncation", okey, p.Pos(iff.Cond.Pos()), "the branch for a declared size that exceeds the available bytes returns an error", "a comparison of a declared chunk size with the available length does not lead to an immediate error return: truncated input may be clamped or skipped")
 		}
 	}
-	c.Floor("P2-truncation", n, 3)
+	c.Floor("P2-truncation", n, 1)
 }
 
 func c17SuccessFrame(c *Ctx, p *Program) {
@@ -528,7 +528,7 @@ func c17SuccessFrame(c *Ctx, p *Program) {
 				"a success return of the container parser can be reached without publishing a frame and without testing the frame count or the animation flag: a header-only prefix of a still file would parse successfully with zero frames")
 		}
 	}
-	c.Floor("P3-success-frame", n, 4)
+	c.Floor("P3-success-frame", n, 2)
 }
 
 func c17SingleReader(c *Ctx, p *Program) {
